@@ -282,6 +282,18 @@ def gen_flags_all(rng):
 
 def gen_c05(rng, n):
     out = []
+    # the error frame arrives on a later attempt, after discarded responses (foreign address, bad check byte, noise, silence)
+    for _ in range(n * 2):
+        for flag, exp in ((1, "Eunknownid"), (2, "Enotsupported"), (4, "Eparameter")):
+            kind = rng.choice(KINDS)
+            addr = rand_addr(rng)
+            k = rng.below(7) + 1
+            react = []
+            for _ in range(k):
+                sym = rng.choice(["foreign", "badchk", "noise", "silence", "short", "badhex"])
+                react.append(chunked(rng, reaction(rng, sym, addr, [1, 2]), 2))
+            react.append(chunked(rng, get_resp(addr, rng.bytes(rng.below(3)), flag=flag)))
+            out.append(Case("deverr-late", [call(kind, addr, rng.choice("nib"), exp)], react=react, cfg=rng.below(4)))
     for _ in range(n):
         for flag, exp in ((1, "Eunknownid"), (2, "Enotsupported"), (4, "Eparameter")):
             for kind in KINDS:
@@ -350,6 +362,29 @@ def gen_c04(rng, exhaustive_len, n_random):
         react.append(chunked(rng, reaction(rng, "good", addr, value), 3))
         out.append(Case("c04-seq", [call(kind, addr, rng.choice("nib"))], react=react, cfg=rng.below(4),
                         tags={"seq": "+".join(seq) if seq else "none", "good_at": str(good_at)}))
+    return out
+
+
+def gen_bursts(rng, n):
+    """one reaction carrying several frames: rejected / foreign / async frames followed by the good frame in the same burst"""
+    out = []
+    for _ in range(n):
+        kind = rng.choice(KINDS)
+        addr = rand_addr(rng)
+        value = rng.bytes(rng.choice([1, 2, 4]))
+        parts = []
+        for _ in range(rng.below(3) + 1):
+            sym = rng.choice(["badchk", "badhex", "foreign", "async", "short", "noise"])
+            parts.append(reaction(rng, sym, addr, value))
+            if sym == "noise":
+                parts[-1] = parts[-1].replace(b"\n", b" ")
+        burst = b"".join(parts) + get_resp(addr, value)
+        # optionally a ping answer / other-type frame first
+        if rng.chance(1, 4):
+            burst = ping_resp() + burst
+        k = rng.below(3)
+        react = [[] for _ in range(k)] + [chunked(rng, burst, 4)]
+        out.append(Case("burst", [call(kind, addr, rng.choice("nib"))], react=react, cfg=rng.below(4)))
     return out
 
 
@@ -446,6 +481,17 @@ def gen_c02_random(rng, n):
     return out
 
 
+def gen_widths(rng):
+    """every payload width 0..70 through every accessor (16, 32, 64 bytes are 'powers of two' but not integer widths)"""
+    out = []
+    for w in range(0, 71):
+        for kind in KINDS:
+            addr = rand_addr(rng)
+            value = rng.bytes(w)
+            out.append(Case("width", [call(kind, addr, "n", expect_for(kind, value))], react=[chunked(rng, get_resp(addr, value), 3)], cfg=rng.below(4)))
+    return out
+
+
 def gen_devid_all(rng, step=1):
     out = []
     ids = list(range(0, 65536, step))
@@ -537,6 +583,29 @@ def gen_big_noise(rng, n):
     return out
 
 
+def gen_buffer_boundary(rng, quick=False):
+    """a line after ':' that is exactly / nearly a multiple of the 4096-byte reader buffer long and ends in what would be a valid body
+    (the abstract line machine's a_until is quadratic in the line length, so the quick tier takes fewer of these)"""
+    out = []
+    for kind in ([rng.choice(KINDS), "devid"] if quick else KINDS + ["devid"]):
+        addr = rand_addr(rng)
+        value = rng.bytes(2)
+        good = get_resp(addr, value) if kind != "devid" else done_resp(le(0xA056, 2))
+        body = good[1:]                      # without ':'
+        for k in ((1, 2) if quick else (1, 2, 3)):
+            for delta in (-1, 0, 1):
+                fill = bytes(rng.choice(b"0123456789ABCDEFxyz \t") for _ in range(k * 4096 + delta))
+                data = b":" + fill + body      # no valid frame: the line is fill ++ body
+                out.append(Case("buffer-boundary", [call(kind, addr if kind != "devid" else 0, "n")],
+                                react=[chunked(rng, data, rng.choice([1, 3, 6]))] + [[]] * 7, cfg=rng.below(4)))
+                # the same fill as noise BEFORE ':' is harmless: the good frame must be accepted
+                data2 = fill.replace(b":", b";") + good
+                exp = expect_for(kind, value) if kind != "devid" else "n%d" % 0xA056
+                out.append(Case("buffer-boundary-noise", [call(kind, addr if kind != "devid" else 0, "n", exp)],
+                                react=[chunked(rng, data2, rng.choice([1, 3, 6]))], cfg=rng.below(4)))
+    return out
+
+
 def generate(tier, seed):
     rng = Rng(seed)
     Case.n = 0
@@ -551,6 +620,8 @@ def generate(tier, seed):
     cases += gen_flags_all(rng)
     cases += gen_c05(rng, 30 if q else 120)
     cases += gen_c04(rng, 3 if q else 4, 1500 if q else 8000)
+    cases += gen_bursts(rng, 800 if q else 4000)
+    cases += gen_widths(rng)
     cases += gen_stale(rng, 1500 if q else 6000)
     cases += gen_first_call_stale(rng, 200 if q else 800)
     cases += gen_c02_exhaustive(rng, [1] if q else [1, 2])
@@ -558,4 +629,5 @@ def generate(tier, seed):
     cases += gen_devid_all(rng, 16 if q else 1)
     cases += gen_faults(rng, 2000 if q else 12000)
     cases += gen_big_noise(rng, 3 if q else 12)
+    cases += gen_buffer_boundary(rng, q)
     return cases
